@@ -1,9 +1,10 @@
 """C07 - term identity laws: correspondence between coq/Term/Model.v and rdflib/term.py,
 rdflib/util.py:from_n3 (plus conformance runs through pickle/copy, the Turtle parser and the SPARQL engine).
 
-Two suites:
+Three suites:
   laws - a list of 2..10 terms: the matrices of ==, hash and < over all pairs (all triples are checked by the
-         verified specification checker inside Coq), plus a conformance flag about sorted()/set()/!=/<=/>/>=.
+         verified specification checker inside Coq) and != , plus conformance flags about sorted()/set()/<=/>/>=.
+  pickler - a sequence of terms with equal text and different kinds through one rdflib.store.NodePickler.
   text - one term: n3() text, from_n3(n3()), pickle round trip (model + spec), and conformance flags for
          copy/deepcopy/all pickle protocols, a one-triple Turtle document and a SPARQL BIND.
 Terms cross the boundary structurally (kind, string, datatype, language), identified without ever calling
@@ -338,19 +339,23 @@ class Laws(Suite):
         js = case["terms"]
         ts = [mk(j) for j in js]
         n = len(ts)
-        E, L, H = [], [], []
-        why = []
+        E, L, H, NE = [], [], [], []
+        w_sort, w_fam, w_set, w_ops = [], [], [], []
         for a in ts:
-            row, lrow = [], []
+            row, lrow, nrow = [], [], []
             for b in ts:
                 try:
                     r = a == b
                     row.append(bool(r) if r in (True, False) else False)
-                    if (a != b) is not (not r):
-                        why.append("!= is not the negation of ==")
                 except Exception as e:  # noqa: BLE001
                     row.append(False)
-                    why.append("== raised " + type(e).__name__)
+                    w_ops.append("== raised " + type(e).__name__)
+                try:
+                    r = a != b
+                    nrow.append(bool(r) if r in (True, False) else not row[-1])
+                except Exception as e:  # noqa: BLE001
+                    nrow.append(row[-1])   # certainly not the negation of ==
+                    w_ops.append("!= raised " + type(e).__name__)
                 try:
                     r = a < b
                     lrow.append("lt" if r is True else "nlt" if r is False else "raise")
@@ -358,6 +363,7 @@ class Laws(Suite):
                     lrow.append("raise")
             E.append(row)
             L.append(lrow)
+            NE.append(nrow)
             H.append(hash(a))
         # ---- conformance flag (not modelled): sorted(), set/dict collapse, the other operators
         nonlit = [i for i in range(n) if js[i][0] != "L"]
@@ -370,12 +376,12 @@ class Laws(Suite):
             try:
                 res = sorted(order, key=lambda i: _K(ts[i]))
             except Exception as e:  # noqa: BLE001
-                why.append("sorted raised " + type(e).__name__)
+                w_sort.append("sorted raised " + type(e).__name__)
                 break
             if res[: len(nonlit)] != expect:
-                why.append("sorted: the non-literal prefix is not the expected order")
+                w_sort.append("sorted: the non-literal prefix is not the expected order")
             if any(js[i][0] != "L" for i in res[len(nonlit):]):
-                why.append("sorted: a non-literal after a literal")
+                w_sort.append("sorted: a non-literal after a literal")
         # literals of one datatype: every permutation sorts to the same sequence (up to ties of the observed <)
         fams = {}
         for i in range(n):
@@ -392,19 +398,19 @@ class Laws(Suite):
                 try:
                     res = sorted(p, key=lambda i: _K(ts[i]))
                 except Exception as e:  # noqa: BLE001
-                    why.append("sorted (one datatype) raised " + type(e).__name__)
+                    w_fam.append("sorted (one datatype) raised " + type(e).__name__)
                     break
                 if first is None:
                     first = res
                 elif any(L[x][y] == "lt" or L[y][x] == "lt" for x, y in zip(first, res) if x != y):
-                    why.append("sorted: literals of one datatype come out in different orders for different input orders")
+                    w_fam.append("sorted: literals of one datatype come out in different orders for different input orders")
                     break
         classes = {structural_key(j) for j in js}
         try:
             if len(set(ts)) != len(classes) or len({t: 1 for t in ts}) != len(classes):
-                why.append("set/dict does not collapse exactly the equal terms")
+                w_set.append("set/dict does not collapse exactly the equal terms")
         except Exception as e:  # noqa: BLE001
-            why.append("set raised " + type(e).__name__)
+            w_set.append("set raised " + type(e).__name__)
         for i in range(n):
             for j in range(n):
                 if js[i][0] == "L" and js[j][0] == "L":
@@ -412,14 +418,16 @@ class Laws(Suite):
                 try:
                     lt, gt, le, ge = ts[i] < ts[j], ts[j] > ts[i], ts[i] <= ts[j], ts[j] >= ts[i]
                     if lt is not gt or le is not ge or bool(le) != (bool(lt) or E[i][j]):
-                        why.append("< > <= >= disagree")
+                        w_ops.append("< > <= >= disagree")
                 except Exception as e:  # noqa: BLE001
-                    why.append("operator raised " + type(e).__name__)
-        return {"eq": E, "hash": H, "lt": L, "flag": not why, "why": sorted(set(why))}
+                    w_ops.append("operator raised " + type(e).__name__)
+        return {"eq": E, "hash": H, "lt": L, "ne": NE, "flags": [not w_sort, not w_fam, not w_set, not w_ops],
+                "why": sorted(set(w_sort + w_fam + w_set + w_ops))}
 
     def on_timeout(self, case):
         n = len(case["terms"])
-        return {"eq": [[False] * n] * n, "hash": [0] * n, "lt": [["raise"] * n] * n, "flag": False, "why": ["timeout"]}
+        return {"eq": [[False] * n] * n, "hash": [0] * n, "lt": [["raise"] * n] * n, "ne": [[False] * n] * n,
+                "flags": [False] * 4, "why": ["timeout"]}
 
     def coq_case(self, case):
         hashes, ill = self.oracles(case)
@@ -432,7 +440,8 @@ class Laws(Suite):
         return ("{| o_eq := " + clist(clist(cbool(x) for x in r) for r in obs["eq"])
                 + "; o_hash := " + clist(f"Some {cZ(h)}" for h in obs["hash"])
                 + "; o_lt := " + clist(clist(cm[x] for x in r) for r in obs["lt"])
-                + "; o_sort := Some " + cbool(obs["flag"]) + " |}")
+                + "; o_ne := " + clist(clist(cbool(x) for x in r) for r in obs["ne"])
+                + "; o_flags := " + clist("Some " + cbool(x) for x in obs["flags"]) + " |}")
 
     def nontrivial(self, case, obs):
         return len(case["terms"]) >= 2
@@ -672,7 +681,100 @@ class Text(Suite):
                 yield self.make_case(["L", "".join(tup), None, None])
 
 
-SUITES = [Laws(), Text()]
+# ------------------------------------------------------------------ suite "pickler"
+from rdflib.store import NodePickler, Store  # noqa: E402
+
+
+class Pickler(Suite):
+    """a SEQUENCE of terms through one rdflib.store.NodePickler (a fresh one, then Store().node_pickler): terms of different
+    kinds with equal text follow each other, each loads(dumps(t)) is read structurally"""
+    name = "pickler"
+    imports = "From RV Require Import Term.Model."
+    case_ty = "pcase"
+    obs_ty = "pobs"
+    model = "pmodel_obs"
+    oeq = "pobs_eqb"
+    spec = "pspec_ok"
+    corr = "rdflib.store.NodePickler.dumps/loads, Store.node_pickler, __reduce__ of the four classes"
+    quick_n = 250
+    thorough_n = 4000
+    timeout_s = 20.0
+
+    def __init__(self):
+        self.pools = _Pools()
+
+    def usable(self, j):
+        return SUITES[1].usable(j)
+
+    def gen(self, rng, i):
+        pool = self.pools.get(rng)
+        terms = []
+        while len(terms) < 2:
+            s = rng.choice(pool)[1] if rng.random() < 0.7 else rng.choice(["a", "b1", "x", "http://example.org/", "1", "true"])
+            fam = [["I", s], ["B", s], ["L", s, None, None]]
+            if s and not s.startswith("?"):
+                fam.append(["V", s])
+            if rng.random() < 0.5:
+                fam.append(["L", s, None, rng.choice(["en", "EN"])])
+            if rng.random() < 0.4:
+                fam.append(["L", s, rng.choice([XSDP + "string", "http://e/dt"]), None])
+            rng.shuffle(fam)
+            for j in fam[: rng.choice([2, 3, 4])]:
+                j = tj(mk(j))
+                if self.usable(j) and j not in terms:
+                    terms.append(j)
+            if rng.random() < 0.3:
+                j = rng.choice(pool)
+                if self.usable(j) and j not in terms:
+                    terms.append(j)
+        if rng.random() < 0.3:
+            terms.append(terms[0])      # the same term again later in the sequence
+        return {"terms": terms[:7]}
+
+    def run_impl(self, case):
+        ts = [mk(j) for j in case["terms"]]
+        out = []
+        for np in (NodePickler(), Store().node_pickler):
+            for t in ts:
+                try:
+                    x = np.loads(np.dumps(t))
+                    out.append(tj(x) if type(x) in (URIRef, BNode, Variable, Literal) else "odd")
+                except Exception:  # noqa: BLE001
+                    out.append("raise")
+        return out
+
+    def on_timeout(self, case):
+        return ["raise"] * (2 * len(case["terms"]))
+
+    def coq_case(self, case):
+        return clist(cterm(j) for j in case["terms"])
+
+    def coq_obs(self, obs):
+        return clist(cwres(w) for w in obs)
+
+    def nontrivial(self, case, obs):
+        return len({(j[0], j[1]) for j in case["terms"]}) > len({j[1] for j in case["terms"]})
+
+    def features(self, case, obs):
+        return {"terms": len(case["terms"]), "same_text_other_kind": int(self.nontrivial(case, obs))}
+
+    def shrink(self, case):
+        ts = case["terms"]
+        if len(ts) > 1:
+            for i in range(len(ts)):
+                yield {"terms": ts[:i] + ts[i + 1:]}
+
+    def sweep(self):
+        rng = random.Random("C07-sweep")
+        strings = sorted({tj(t)[1] for t in build_pool(rng)})[:120]
+        for s in strings:
+            fam = [["I", s], ["L", s, None, None], ["B", s]] + ([["V", s]] if s and not s.startswith("?") else [])
+            fam = [j for j in (tj(mk(j)) for j in fam) if self.usable(j)]
+            yield {"terms": fam}
+            yield {"terms": fam[::-1]}
+
+
+SUITES = [Laws(), Text(), Pickler()]
 
 TRUSTED = [
     "Coq 8.16.1 kernel and vm_compute",
